@@ -89,6 +89,12 @@ func main() {
 	if feat["sched"] {
 		for _, d := range []string{"cache", "frac", "fracmanager"} {
 			for _, f := range goFiles(*repo, d) {
+				// FileWriter keeps the real sync primitives: its mutex / waitgroup are only shared with its own
+				// free-running syncLoop helper goroutine (request/response over channels), never held across a
+				// scheduling point; shimming them would make the enabled set depend on the helper's timing.
+				if f == "frac/file_writer.go" {
+					continue
+				}
 				rs.add(f, "sync", module+"/zzverif/vsync")
 			}
 		}
@@ -149,6 +155,21 @@ func main() {
 			replace[filepath.Join(*repo, rel)] = p
 			return nil
 		})
+	}
+
+	// The repository's own white-box tests of the rewritten packages pass *sync.WaitGroup etc. into
+	// functions whose parameter types become shim types: under `sched` they are removed from the build
+	// (overlay entry with an empty replacement = file deleted); only the mounted harness tests compile.
+	if feat["sched"] {
+		for _, d := range []string{"cache", "frac", "fracmanager"} {
+			ents, _ := os.ReadDir(filepath.Join(*repo, d))
+			for _, e := range ents {
+				n := e.Name()
+				if strings.HasSuffix(n, "_test.go") && !strings.HasPrefix(n, "zz_verif") {
+					replace[filepath.Join(*repo, d, n)] = ""
+				}
+			}
+		}
 	}
 
 	files := map[string]bool{}
